@@ -9,6 +9,7 @@ panic and are caught (`none` results: the state is what Rust leaves behind at th
 That the compiled code has no UB given this discipline is outside the model (DESIGN.md §7).
 -/
 import Flussab.Proof.ReaderOps
+import Flussab.Proof.WriterOps
 
 namespace Flussab.C14
 open Flussab Reader
@@ -125,5 +126,35 @@ example :
     r.Ok ∧ (runAll [.request 2, .advance 5, .requestMore, .request 3] r).1 =
       [.bytes [1, 2], .panic, .panic, .bytes [1, 2, 5]] := by
   exact ⟨⟨by decide, by decide, by decide, by decide, by decide, by decide⟩, by decide⟩
+
+/-! ### the writer half -/
+
+/-- **`len ≤ capacity` after every call of the writer's safe API, for every sink** — also when the
+sink panics and the panic unwinds through the writer.  This is the bound the `unsafe` blocks of
+`write_all_defer_err` (`copy_from_nonoverlapping` into `old_len..new_len`, `set_len`) and of
+`write::text::ascii_digits` (`buf_write_ptr(MAX_LEN)` + `advance_unchecked(len)`) rely on; for the
+latter the op is valid when the text of the value is at most `MAX_LEN` bytes long, which
+`Flussab.C11.digits_fit` proves for every value of the integer type. -/
+theorem writer_len_le_capacity (w : Writer) (op : Writer.Op) (hv : op.Valid) (h : w.buf.length ≤ w.cap) :
+    (op.run w).2.buf.length ≤ (op.run w).2.cap ∧ (op.run w).2.cap = w.cap :=
+  Writer.op_len w op hv h
+
+theorem writer_history_len_le_capacity (ops : List Writer.Op) (w : Writer) (hv : ∀ op ∈ ops, op.Valid)
+    (h : w.buf.length ≤ w.cap) :
+    (ops.foldl (fun w op => (op.run w).2) w).buf.length ≤ w.cap ∧
+    (ops.foldl (fun w op => (op.run w).2) w).cap = w.cap := by
+  induction ops generalizing w with
+  | nil => exact ⟨h, rfl⟩
+  | cons op ops ih =>
+    obtain ⟨h1, c1⟩ := Writer.op_len w op (hv op (by simp)) h
+    obtain ⟨h2, c2⟩ := ih (op.run w).2 (fun o ho => hv o (by simp [ho])) h1
+    simp only [List.foldl]
+    exact ⟨by rw [c1] at h2; exact h2, by rw [c2, c1]⟩
+
+/-- Non-vacuity: a panicking sink in the middle of a flush; the buffer is kept, bounded. -/
+example :
+    let w : Writer := { sink := { sched := [.accept 1, .panic] }, cap := 4 }
+    let w' := [Writer.Op.write [1, 2, 3], .write [4, 5, 6]].foldl (fun w op => (op.run w).2) w
+    w'.panicked = true ∧ w'.buf.length ≤ 4 := by decide
 
 end Flussab.C14
